@@ -148,6 +148,10 @@ def gen_leaf(rng, cls=None, n=None, **opt):
         L['c3'] = F(1, 2)
       if (v // 4) % 2 == 0 and L['c2'] == 0:
         L['c2'] = L['c1'] / 2
+    elif cls == 'ADevice' and v % 2 == 0:
+      # every combinator (reflection, sum, ranges, nested) over every kind of inner function whose first AND second derivative
+      # depend on the point and are not even in it (cubics, power curves, offset quadratics): drawn at random these pairs are rare
+      L['f'] = strat_fn(rng, n, L['bounds'], v // 2)
   add_late_settings(L)
   return L
 
@@ -240,6 +244,43 @@ def gen_fn(rng, n, bounds, cbounds, depth):
   if k == 'demand':
     return ('demand', [dy(rng, -1, 2, 2) for _ in range(rng.randint(1, 3))])
   raise AssertionError(k)
+
+
+def strat_fn(rng, n, bounds, v):
+  inner_kinds = ['cubic', 'abc3', 'offset', 'hl', 'x2d', 'abc2']
+  outer_kinds = ['reflect', 'sum-reflect', 'reflect-sum', 'ranges-reflect', 'reflect-reflect', 'sum']
+
+  def inner(kind, n, bounds):
+    if kind == 'cubic':
+      return ('poly2d', [[dy(rng, F(1, 4), 2, 2) * pick(rng, [1, -1]), dy(rng, -2, 2, 2), dy(rng, -2, 2, 2), dy(rng, -2, 2, 2)] for _ in range(n)])
+    if kind in ('abc3', 'abc2'):
+      b = F(3) if kind == 'abc3' else F(2)
+      return ('abc', gen_param(rng, n, 0, 1, 2), b, dy(rng, F(1, 2), 2, 2), [x[0] for x in bounds], [x[1] for x in bounds])
+    if kind == 'offset':
+      return ('poly2doffset', [[dy(rng, F(1, 4), 2, 2), dy(rng, -2, 2, 2), dy(rng, -2, 2, 2)] for _ in range(n)], [dy(rng, F(1, 4), 1, 2) * pick(rng, [1, -1]) for _ in range(n)])
+    if kind == 'hl':
+      ph = dy(rng, -2, 1, 2)
+      return ('hl', ph - pick(rng, [F(1, 2), F(1)]), ph, [x[0] for x in bounds], [x[1] for x in bounds])
+    out = []
+    for i in range(n):
+      ph = dy(rng, -2, 1, 2)
+      out.append((ph - pick(rng, [F(1, 2), F(1)]), ph, bounds[i][0], bounds[i][1]))
+    return ('x2d', out)
+  ik = inner_kinds[v % len(inner_kinds)]
+  ok = outer_kinds[(v // len(inner_kinds)) % len(outer_kinds)]
+  f = inner(ik, n, bounds)
+  if ok == 'reflect':
+    return ('reflect', f)
+  if ok == 'sum-reflect':
+    return ('sum', [('reflect', f), inner(inner_kinds[(v + 1) % len(inner_kinds)], n, bounds)])
+  if ok == 'reflect-sum':
+    return ('reflect', ('sum', [f, inner(inner_kinds[(v + 2) % len(inner_kinds)], n, bounds)]))
+  if ok == 'reflect-reflect':
+    return ('reflect', ('reflect', f))
+  if ok == 'ranges-reflect' and n >= 2:
+    cut = rng.randint(1, n - 1)
+    return ('ranges', [(0, cut, ('reflect', inner(ik, cut, bounds[:cut]))), (cut, n, inner(ik, n - cut, bounds[cut:]))])
+  return ('sum', [f, ('reflect', inner(ik, n, bounds))])
 
 
 def gen_ucon(rng, n):
